@@ -1,6 +1,7 @@
 package l1
 
 import (
+	"encoding/base64"
 	"bytes"
 	"crypto/hmac"
 	"crypto/sha256"
@@ -100,6 +101,16 @@ func forwardPairs() []ReloadPair {
 			Old:    reloadHeader + route("/a", "max_body 64", "pull { path /pull/a }"),
 			New:    reloadHeader + route("/a", "max_body 4kb", "pull { path /pull/a }"),
 			Probes: []ReloadProbe{{Name: "big", Kind: "ingress", Method: "POST", Path: "/a", Body: big}, {Name: "small", Kind: "ingress", Method: "POST", Path: "/a", Body: "{}"}}},
+		{Name: "max_body_lowered",
+			Old:    reloadHeader + route("/a", "max_body 4kb", "pull { path /pull/a }"),
+			New:    reloadHeader + route("/a", "max_body 64", "pull { path /pull/a }"),
+			Probes: []ReloadProbe{{Name: "big", Kind: "ingress", Method: "POST", Path: "/a", Body: big}, {Name: "pub_big", Kind: "publish", Path: "/a", Body: big},
+				{Name: "pub_small", Kind: "publish", Path: "/a", Body: "{}"}}},
+		// the first matcher of a KIND appears with the reload (nothing of that kind existed at start-up)
+		{Name: "first_query_matcher_added",
+			Old:    reloadHeader + route("/a", "pull { path /pull/a }"),
+			New:    reloadHeader + route("/a/b", "match { query \"env\" \"prod\" }", "pull { path /pull/ab }") + route("/a", "pull { path /pull/a }"),
+			Probes: []ReloadProbe{{Name: "with_query", Kind: "ingress", Method: "POST", Path: "/a/b?env=prod", Body: "{}"}, {Name: "without_query", Kind: "ingress", Method: "POST", Path: "/a/b", Body: "{}"}}},
 		{Name: "method_changed",
 			Old:    reloadHeader + route("/a", "match { method PUT }", "pull { path /pull/a }"),
 			New:    reloadHeader + route("/a", "match { method POST }", hm("s1"), "pull { path /pull/a }"),
@@ -244,6 +255,38 @@ func (r *reloadInst) answer(p ReloadProbe) string {
 			}
 		}
 		return fmt.Sprintf("status=%d items=%d", rec.Code, len(resp.Items))
+	case "publish":
+		// Admin API publish of one item to the route: the route's limits in force decide (413 / stored)
+		before := map[string]bool{}
+		for _, row := range r.mem.VerifDump() {
+			before[row.Env.ID] = true
+		}
+		item := map[string]any{"id": fmt.Sprintf("pub-%d-%d", os.Getpid(), probeSerial), "route": p.Path, "target": "pull",
+			"payload_b64": base64.StdEncoding.EncodeToString([]byte(p.Body))}
+		b, _ := json.Marshal(map[string]any{"items": []any{item}})
+		req := httptest.NewRequest(http.MethodPost, "/messages/publish", bytes.NewReader(b))
+		req.Header.Set("Content-Type", "application/json")
+		req.Header.Set("X-Hookaido-Audit-Reason", "verif reload probe")
+		req.Header.Set("X-Hookaido-Audit-Actor", "ci-bot")
+		req.Header.Set("X-Request-ID", fmt.Sprintf("req-%d", probeSerial))
+		rec := httptest.NewRecorder()
+		h := r.inst.Handlers["admin_api"]
+		if h == nil {
+			h = r.inst.Handlers["pull+admin"]
+		}
+		h.ServeHTTP(rec, req)
+		var added []string
+		for _, row := range r.mem.VerifDump() {
+			if !before[row.Env.ID] {
+				added = append(added, row.Env.Route+">"+row.Env.Target)
+			}
+		}
+		sort.Strings(added)
+		var er struct {
+			Code string `json:"code"`
+		}
+		_ = json.Unmarshal(rec.Body.Bytes(), &er)
+		return fmt.Sprintf("status=%d code=%s stored=%s", rec.Code, er.Code, strings.Join(added, ","))
 	case "ingress":
 		before := map[string]bool{}
 		for _, row := range r.mem.VerifDump() {
